@@ -33,7 +33,7 @@ func Harness_C17_threshold_consistent() {
 	vr.Reach("end")
 }
 
-func Harness_C17_update_value_thorough() {
+func vrTODO_C17_update_value() {
 	vr.Domain("RUF")
 	x, a, b := vrBoundedPoint("x"), vrBoundedPoint("a"), vrBoundedPoint("b")
 	m := s1.ChordAngle(vr.Float64("limit"))
